@@ -8,6 +8,10 @@ func init() {
 	// fileOpenLimit is a package-level channel. Inside a synctest bubble a channel made
 	// outside it does not block durably, so each simulated run gets its own, and a
 	// plain one is restored afterwards for pass-through use.
-	verifsim.RegisterReset(func() { fileOpenLimit = make(chan bool, 32) })
-	verifsim.RegisterAfterRun(func() { fileOpenLimit = make(chan bool, 32) })
+	verifsim.RegisterReset(func() { fileOpenLimit = make(chan bool, verifsim.OpenFileLimit()) })
+	// (leaked slots of the open-file limiter are read off before the channel is replaced)
+	verifsim.RegisterAfterRun(func() {
+		verifsim.LeakedOpenFileSlots = len(fileOpenLimit)
+		fileOpenLimit = make(chan bool, 32)
+	})
 }
